@@ -172,14 +172,15 @@ func (k Keeper) UpdateLPRewards(ctx sdk.Context) error {
 	if err != nil {
 		return err
 	}
-	gasFeesForLpsDec = gasFeesForLpsDec.Add(perpRevenue...)
 	_, _, rewardsPerPool, err := k.CollectDEXRevenue(ctx)
 	if err != nil {
 		return err
 	}
 
 	// USDC amount in math.LegacyDec type
-	gasFeeUsdcAmountForLps := gasFeesForLpsDec.AmountOf(baseCurrency)
+	// Only the truncated amounts were moved into the module by CollectGasFees and CollectPerpRevenue:
+	// crediting their fractional parts would hand out more than the module received
+	gasFeeUsdcAmountForLps := gasFeesForLpsDec.AmountOf(baseCurrency).TruncateDec().Add(perpRevenue.AmountOf(baseCurrency).TruncateDec())
 
 	// Proxy TVL
 	// Multiplier on each liquidity pool
